@@ -81,13 +81,11 @@ class Lexical(UsesState, HasLabel, Generic[ParentType], ABC):
             # Exit early if nothing is changing
             return
 
-        if new_parent is not None and not isinstance(new_parent, self.parent_type()):
-            raise ValueError(
-                f"Expected None or a {self.parent_type()} for the parent of "
-                f"{self.label}, but got {new_parent}"
-            )
-
+        self._check_parent(new_parent)
         _ensure_path_is_not_cyclic(new_parent, self)
+        if new_parent is not None and self not in new_parent.children.inv:
+            # Fail before mutating anything: the new parent must accept our label
+            new_parent._get_unique_label(self.label, new_parent.strict_naming)
 
         if (
             self._parent is not None
@@ -99,6 +97,13 @@ class Lexical(UsesState, HasLabel, Generic[ParentType], ABC):
         self._detached_parent_path = None
         if self._parent is not None:
             self._parent.add_child(self)
+
+    def _check_parent(self, new_parent) -> None:
+        if new_parent is not None and not isinstance(new_parent, self.parent_type()):
+            raise ValueError(
+                f"Expected None or a {self.parent_type()} for the parent of "
+                f"{self.label}, but got {new_parent}"
+            )
 
     @property
     def lexical_path(self) -> str:
@@ -295,6 +300,7 @@ class LexicalParent(HasLabel, Generic[ChildType], ABC):
                 f"but got {child}"
             )
 
+        child._check_parent(self)  # Fail before mutating anything
         _ensure_path_is_not_cyclic(self, child)
 
         self._ensure_child_has_no_other_parent(child)
@@ -333,7 +339,7 @@ class LexicalParent(HasLabel, Generic[ChildType], ABC):
         )
 
     def _this_child_is_already_at_a_different_label(self, child, label) -> bool:
-        return child.parent is self and label != child.label
+        return child in self.children.inv and label != child.label
 
     def _get_unique_label(self, label: str, strict_naming: bool) -> str:
         if label in self.__dir__():
@@ -419,15 +425,12 @@ class LexicalParent(HasLabel, Generic[ChildType], ABC):
 
 
 def _ensure_path_is_not_cyclic(parent, child: Lexical) -> None:
-    if parent is child or (
-        isinstance(parent, Lexical)
-        and parent.lexical_path.startswith(
-            child.lexical_path + child.lexical_delimiter
-        )
-    ):
-        raise CyclicPathError(
-            f"{parent.label} cannot be the parent of {child.label}, because its "
-            f"lexical path is already in {child.label}'s path and cyclic paths "
-            f"are not allowed. (i.e. {child.lexical_path} is in "
-            f"{parent.lexical_path})"
-        )
+    ancestor = parent
+    while ancestor is not None:
+        if ancestor is child:
+            raise CyclicPathError(
+                f"{parent.label} cannot be the parent of {child.label}, because "
+                f"{child.label} is {parent.label} or one of its lexical parents and "
+                f"cyclic paths are not allowed."
+            )
+        ancestor = getattr(ancestor, "parent", None)
